@@ -284,8 +284,13 @@ func c16FloorTerms(c *Ctx) {
 				miss = strings.Join(want, "…")
 			}
 		}
-		bt := term(site.Args()[2])
-		okb := strings.Contains(bt, sp.bound)
+		// the bound may be computed by a same-package helper: every value it can return must have the expected form
+		bts := termInlAll(site.Args()[2], false)
+		bt := strings.Join(bts, " | ")
+		okb := true
+		for _, t := range bts {
+			okb = okb && strings.Contains(t, sp.bound)
+		}
 		c.check(miss == "" && okb, "floor-terms", "(*pruner.Pruner)."+sp.fn, p.Pos(site.Pos()), sp.reason,
 			fmt.Sprintf("prune bound/guards changed: missing guard %q or bound %s lacks %q; facts: %s", miss, bt, sp.bound, strings.Join(fs, "; ")))
 	}
@@ -381,18 +386,16 @@ func c16CarveOuts(c *Ctx) {
 	}
 	if fn := p.Func("pruner", "", "pruneHashKeyedUpto"); fn != nil {
 		n := 0
-		for _, s := range sitesOf(fn) {
-			if !strings.HasSuffix(s.CalleeName(), "DeleteBlockHeaderNumberByHash") {
-				continue
-			}
+		for _, ds := range p.deepSites(fn, nameMatcher("DeleteBlockHeaderNumberByHash"), 2) {
+			s := ds.Site
 			at := term(s.Args()[1])
 			if !strings.Contains(at, "BlockHash") { // the start-1 cleanup deletes the hash of an already-pruned block
 				continue
 			}
 			n++
-			fs := factStrings(factsAt(s.Instr))
-			ok := hasFact(fs, "!=", "(endExclusive - 1)")
-			c.check(ok, "carve-outs", "pruner.pruneHashKeyedUpto:hash→number", p.Pos(s.Pos()), "hash→number of end−1 is kept", "the hash→number mapping of block end−1 is no longer skipped: StateAtBlockHash(end.parentHash) would fail")
+			d := p.mustHoldDeep(ds)
+			ok, miss := everyDisjunctHas(d, []string{" != (endExclusive - 1))"}, []string{"^!", " == (endExclusive - 1))"}, []string{"^!", "((endExclusive - 1) == "}, []string{"((endExclusive - 1) != "})
+			c.check(ok, "carve-outs", "pruner.pruneHashKeyedUpto:hash→number", p.Pos(s.Pos()), "hash→number of end−1 is kept", "the hash→number mapping of block end−1 is no longer skipped: StateAtBlockHash(end.parentHash) would fail: "+miss)
 		}
 		if n == 0 {
 			c.und("carve-outs", "pruner.pruneHashKeyedUpto:hash→number", p.Pos(fnPos(fn)), "per-block hash→number delete not found")
